@@ -22,7 +22,8 @@ use std::ops::ControlFlow;
 
 #[derive(Clone, Debug, PartialEq)]
 pub enum St { K(&'static str), I(usize) }
-const POOL: [St; 6] = [St::K("a"), St::K("b_c"), St::K("Zed9"), St::I(0), St::I(7), St::I(12)];
+// keys include the empty string and keys that are not identifier-like (a dot, a digit first): the rendering is defined for every key
+const POOL: [St; 9] = [St::K("a"), St::K("b_c"), St::K("Zed9"), St::I(0), St::I(7), St::I(12), St::K(""), St::K("a.b"), St::K("0")];
 
 /// the statement's rendering, written from the root forwards
 pub fn ref_json(p: &[St]) -> String {
@@ -90,7 +91,7 @@ fn kind_of_choice<'a>(k: u8, variant: u8, seq3: &'a [J; 3]) -> (ErrorKind<'a, J>
 pub fn msg_paths() {
     let depth = nd::below(4) as usize;
     let mut steps = Vec::new();
-    for _ in 0..depth { steps.push(POOL[nd::below(6) as usize].clone()); }
+    for _ in 0..depth { steps.push(POOL[nd::below(9) as usize].clone()); }
     let k = nd::below(6);
     let variant = if k == 0 { nd::below(8) } else if k == 2 || k == 3 { nd::below(6) } else { 0 };
     let seq3 = [json!(1), json!("w"), J::Null];
